@@ -85,9 +85,10 @@ theorem lookup_enact (m : List (Nat × Nat)) (l : List Nat) (k v : Nat) (hlen : 
 
 /-! ### the digests of a header -/
 
-theorem digests_wellformed (ds : List Ann) (h1 : (ds.filter (·.forced)).length ≤ 1)
-    (h2 : (ds.filter (fun d => !d.forced)).length ≤ 1) :
-    filterDigests ds = (match ds.find? (·.forced) with | some f => some f | none => ds.head?).toList := by
+theorem digests_wellformed (ds : List Ann) (h1 : (ds.filter (fun d : Ann => d.forced)).length ≤ 1)
+    (h2 : (ds.filter (fun d : Ann => !d.forced)).length ≤ 1) :
+    filterDigests ds =
+      (match ds.find? (fun d : Ann => d.forced) with | some f => some f | none => ds.head?).toList := by
   unfold filterDigests
   match ds, h1, h2 with
   | [], _, _ => simp
@@ -125,7 +126,6 @@ theorem importKids_blocks (t : Tree) (isD : IsD) (pc : Ann) : ∀ (l l' : List N
   | .mk c kids :: rest, l', h => by
     rw [importKids] at h
     intro x hx
-    dsimp only at h
     split at h
     · exact absurd h (by simp)
     · rename_i n' hn
@@ -294,7 +294,7 @@ theorem rInv_step {t : Tree} (wf : t.WF) (s : St) (op : Op) (hl : LiveInv t s) (
         exact hr0 _ hc.2.2.2.1 hc.2.2.2.2 (handleDigestsPartial_blocks _ _ (filterDigests_blk t b))
       · rename_i s1 hd
         have hc := handleDigests_core t _ _ _ hd
-        have h1 := hr0 s1 hc.2.2.2.1 hc.2.2.2.2 (handleDigests_blocks _ _ _ (filterDigests_blk t b) hd)
+        have h1 := hr0 s1 hc.2.2.2.1 hc.2.2.2.2 (handleDigests_blocks _ { s with live := s.live ++ [b] } _ (filterDigests_blk t b) hd)
         split
         · exact h1
         · rename_i s2 hfo
